@@ -1044,11 +1044,15 @@ impl<'a, 'b, W: Write> Serializer for &'a mut YamlSerializer<'b, W> {
                 self.write_indent(base)?;
             }
             // Compute the indentation indicator N for block scalars.
-            // N = indent_step * body_base = number of spaces the parser will strip.
+            // N is relative to the indentation of the parent node (YAML 1.2 section 8.1.1.1), not
+            // the absolute body column: the body sits one indentation step below its parent.
             // We must emit an explicit indicator when the first non-empty content line
             // has leading whitespace, so the parser knows how much to strip.
             let body_base = base + 1;
-            let indent_n = self.indent_step * body_base;
+            let indent_n = self.indent_step;
+            // Nested nodes that start inline after a "- " are two columns (not one step) to the
+            // right of their parent, so below the top level the offset is known only for step 2.
+            let indicator_reliable = base == 0 || self.indent_step == 2;
 
             // Check if we need an explicit indentation indicator.
             // Required when the first non-empty line has leading whitespace.
@@ -1057,7 +1061,7 @@ impl<'a, 'b, W: Write> Serializer for &'a mut YamlSerializer<'b, W> {
             let needs_indicator = first_line_spaces > 0;
 
             // If N > 9, YAML parsers reject it. Fall back to quoting.
-            if needs_indicator && indent_n > 9 {
+            if needs_indicator && (indent_n > 9 || !indicator_reliable) {
                 // Reset state and fall through to quoted string handling
                 self.pending_str_style = None;
                 self.pending_str_from_auto = false;
